@@ -10,6 +10,7 @@ after every operation, every link of the real pointer structure checked).
 import SamVerif.Proofs.Hotkey
 import SamVerif.Gen.Hotkey
 import SamVerif.Gen.Filters
+import SamVerif.Model.HotShare
 namespace SamVerif.Props.C19
 open SamVerif.Hotkey SamVerif.Proofs.Hotkey
 
@@ -674,6 +675,64 @@ theorem code_matches_model :
 
 end SamVerif.Props.C19
 
+namespace SamVerif.Props.C19s
+open SamVerif.Hotkey SamVerif.HotShare
+
+theorem run_own (ops : List Op) : ∀ (s t s' : Shared), s.old = false → s.c = t.c → run s ops = some s' →
+    ∃ t', run t (own ops) = some t' ∧ t'.c = s'.c := by
+  induction ops with
+  | nil => intro s t s' _ hc h; simp only [run] at h; cases h; exact ⟨t, rfl, hc.symm⟩
+  | cons o os ih =>
+    intro s t s' ho hc h
+    simp only [run] at h
+    split at h
+    · rename_i s1 hs
+      cases o with
+      | incr k =>
+        simp only [step, Option.map_eq_some_iff] at hs
+        obtain ⟨c', hc', rfl⟩ := hs
+        obtain ⟨t2, h2, e2⟩ := ih { s with c := c' } { t with c := c' } s' ho rfl h
+        have e : own (.incr k :: os) = .incr k :: own os := by simp [own]
+        refine ⟨t2, ?_, e2⟩
+        rw [e]; simp only [run, step, ← hc, hc', Option.map_some]
+        exact h2
+      | latch =>
+        simp only [step] at hs; cases hs
+        obtain ⟨t2, h2, e2⟩ := ih { s with c := (latch s.c).2 } { t with c := (latch t.c).2 } s' ho (by simp [hc]) h
+        have e : own (.latch :: os) = .latch :: own os := by simp [own]
+        refine ⟨t2, ?_, e2⟩
+        rw [e]; simp only [run, step]
+        exact h2
+      | allocOther =>
+        simp only [step] at hs; cases hs
+        obtain ⟨t2, h2, e2⟩ := ih { s with refs := s.refs + 1 } t s' ho hc h
+        exact ⟨t2, by simpa [own] using h2, e2⟩
+      | freeOther =>
+        simp only [step, ho, Bool.false_eq_true, ↓reduceIte] at hs
+        split at hs
+        · cases hs
+        · cases hs
+          obtain ⟨t2, h2, e2⟩ := ih { c := s.c, refs := s.refs - 1 } t s' rfl hc h
+          exact ⟨t2, by simpa [own] using h2, e2⟩
+    · cases h
+
+/-- **The live connection's counter is not touched by the other connections to its backend** (F-19c, since 61d3b92): after any
+history of its own accesses and of other connections being made and stopped, the counter holds what its own accesses alone
+produce — so the exactness and capacity theorems above speak about it. -/
+theorem live_counter_is_its_own (c : Counter) (ops : List Op) (s' : Shared) (h : run { c := c } ops = some s') :
+    ∃ t', run { c := c } (own ops) = some t' ∧ t'.c = s'.c :=
+  run_own ops _ _ s' rfl rfl h
+
+/-- **Before 61d3b92**: a successor is made, the old connection is stopped — the successor's counter is empty again -/
+theorem old_free_resets_the_successors_counter :
+    ∃ s, run { old := true, c := { cap := 3, nodes := [] } } [.incr 1, .incr 1, .allocOther, .freeOther] = some s ∧ s.c.nodes = [] := by
+  refine ⟨_, rfl, rfl⟩
+
+example : ∃ s, run { c := { cap := 3, nodes := [] } } [.incr 1, .incr 1, .allocOther, .freeOther] = some s ∧ s.c.nodes ≠ [] := by
+  refine ⟨_, rfl, by decide⟩
+
+end SamVerif.Props.C19s
+
 #print axioms SamVerif.Props.C19.incr_inv
 #print axioms SamVerif.Props.C19.run_inv
 #print axioms SamVerif.Props.C19.incr_tracked_count
@@ -689,3 +748,5 @@ end SamVerif.Props.C19
 #print axioms SamVerif.Props.C19.evictStale_names
 #print axioms SamVerif.Props.C19.report_well_formed
 #print axioms SamVerif.Props.C19.filters_match_model
+#print axioms SamVerif.Props.C19s.live_counter_is_its_own
+#print axioms SamVerif.Props.C19s.old_free_resets_the_successors_counter
